@@ -16,7 +16,7 @@ RULE = ("cases = every exported BaseStepper subclass (enumerated from the packag
         "constructor restrictions; distinct = (monitor, class, D, malformation | restriction); a class exported by the tree but unknown to the zoo makes the run inconclusive")
 REQUIRED = {"rejects_shape": {"quick": 400, "thorough": 800}, "accepts_valid": {"quick": 60, "thorough": 120}, "ctor_restrictions": {"quick": 40, "thorough": 60}, "exports_covered": 1}
 ASSUMPTIONS = ["ForcedStepper is not among the objects the property lists and is recorded as an observation only", "Poisson has no channel configuration: only spatial malformations are judged"]
-TIMEOUT = {"quick": 900, "thorough": 2000}
+TIMEOUT = {"quick": 2400, "thorough": 7200}
 
 
 def cases(tier, seed):
